@@ -141,7 +141,7 @@ def eval_point(pt, R):
                         'residual not orthogonal to the regressors', outs=(a, e))
                 R.check(close(a, aref, tol, 1e-10), pre + '_ls', feats, ptm, a, aref, 'coefficients != dense least squares on the reference data matrix',
                         err=relerr(a, aref))
-                R.check(abs(e - emin) <= tol * max(energy, 1e-300) + 1e-12, pre + '_err', feats, ptm, e, emin, 'returned error != minimum energy')
+                R.check(abs(e - emin) <= tol * max(energy, 1e-300), pre + '_err', feats, ptm, e, emin, 'returned error != minimum energy')
             else:
                 R.viol(pre + '_ls', feats, ptm, a, aref, 'wrong number of coefficients')
         except Exception as ex:
@@ -160,7 +160,7 @@ def eval_point(pt, R):
                     out = modcovar_marple(x, p)
                     am, pm = np.asarray(out[0])[:p], out[1]
                     per = emin / (2.0 * (N - p))
-                R.check(close(am, aref, 1e-7 * max(cond, 1.0), 1e-9) and abs(pm - per) <= 1e-7 * max(cond, 1.0) * per + 1e-12, pre + '_marple', feats, ptm,
+                R.check(close(am, aref, 1e-7 * max(cond, 1.0), 1e-9) and abs(pm - per) <= 1e-7 * max(cond, 1.0) * max(per, energy / N * 1e-9), pre + '_marple', feats, ptm,
                         [am, pm], [aref, per], 'fast recursion: coefficients or per-sample minimum differ from least squares', outs=(am, pm))
             except Exception as ex:
                 R.viol(pre + '_marple', dict(feats, exc=type(ex).__name__), ptm, repr(ex), [aref, emin], 'fast recursion raised inside its domain')
